@@ -220,6 +220,11 @@ class Prefixed(BaseModel):
         with _exact(self.number):
             return self.number.scaleb(self.prefix.value)
 
+    def _canonical(self) -> str:
+        """Canonical text of our exact value. Equal numbers, however written, have equal canonical text."""
+        with _exact(self.number):
+            return str(self.number.scaleb(self.prefix.value).normalize())
+
     def __hash__(self):
         # Hash by value, so that equal numbers with different prefixes hash equally
         return hash(self._value())
